@@ -112,3 +112,18 @@ Example C17_format_examples :
   exon_id chr9 7 = [99;104;114;57;46;55] /\
   issue (forbidden_ids [novel_gene_id chr9 2] [transcript_id 1 chr9 true]) 0 3 = [3; 4; 5].
 Proof. vm_compute. repeat split; reflexivity. Qed.
+
+(* ---- tie to the source.  gen/Extra.v is regenerated from src/common.py on every check (tools/translate_extra.py); the model's
+        naming constants are those of TranscriptNaming (the four eq_refl are checked by conversion: an edit of a constant in the
+        source is reported against this theorem), so the two id formats are built from the source's constants *)
+From IQ.gen Require Extra.
+From IQ Require Import IdsBridge.
+Theorem C17_naming_constants_are_the_sources :
+  transcript_prefix = Extra.TN_transcript_prefix /\ novel_gene_prefix = Extra.TN_novel_gene_prefix /\
+  nic_suffix = Extra.TN_nic_transcript_suffix /\ nnic_suffix = Extra.TN_nnic_transcript_suffix /\
+  (forall n chr is_nic, transcript_id n chr is_nic =
+     Extra.TN_transcript_prefix ++ print_dec n ++ 46 :: chr ++ (if is_nic then Extra.TN_nic_transcript_suffix else Extra.TN_nnic_transcript_suffix)) /\
+  (forall chr n, novel_gene_id chr n = Extra.TN_novel_gene_prefix ++ chr ++ 95 :: print_dec n).
+Proof. exact (naming_constants_bridge Extra.TN_transcript_prefix Extra.TN_novel_gene_prefix Extra.TN_nic_transcript_suffix Extra.TN_nnic_transcript_suffix
+                eq_refl eq_refl eq_refl eq_refl). Qed.
+Print Assumptions C17_naming_constants_are_the_sources.
